@@ -538,12 +538,26 @@ def run_cli_item(item, text, ref, stat, viols, ii, want_bytes=False):
                     '%r are invalid' % (item['flags'],)))
         return chan, sig, nontrivial, res
     if ok:
-        try:
-            got_text = out_bytes.decode(out_enc)
-        except UnicodeDecodeError as e:
+        # stdout's encoding is the environment's; a front end that encodes
+        # stdout with --encoding instead is equally "exactly format()'s
+        # result", so either decoding may match
+        encs = [out_enc] if item['out'] == 'file' or out_enc == enc \
+            else [out_enc, enc]
+        got_text = None
+        derr = None
+        for e_ in encs:
+            try:
+                t_ = out_bytes.decode(e_)
+            except UnicodeDecodeError as e:
+                derr = e
+                continue
+            if got_text is None or canon.same(
+                    canon.ok_outcome('format', t_), ref):
+                got_text = t_
+        if got_text is None:
             viols.append(dict(
                 base, cls='cli:undecodable-output',
-                msg='sqlformat output is not valid %s: %s' % (out_enc, e)))
+                msg='sqlformat output is not valid %s: %s' % (out_enc, derr)))
             return chan, sig, nontrivial, res
         out = canon.ok_outcome('format', got_text)
         if stray:
